@@ -1,5 +1,5 @@
 #!/usr/bin/env python3
-"""Print the DESIGN.md table of seeded changes from seeded/*/meta.json."""
+"""Print the DESIGN.md table of seeded changes from seeded/*/meta.json; with --write, put it between the markers of DESIGN.md."""
 import json, os, glob
 V = os.path.dirname(os.path.dirname(os.path.abspath(__file__)))
 rows = []
@@ -14,6 +14,24 @@ for d in sorted(glob.glob(V + "/seeded/*-*")):
     res = str(lc.get("check_result", "")).replace("\n", " ").replace("|", "/")
     tests = "identical to baseline" if "identical" in str(lc.get("test_suite", "")) else str(lc.get("test_suite", ""))[:40]
     rows.append("| %s | %s | %s | %s | %s |" % (os.path.basename(d), what[:230], needs[:200], res[:330], tests))
-print("| seed | what it breaks | needs, to manifest | check result | suite with the change |")
-print("|---|---|---|---|---|")
-print("\n".join(rows))
+TABLE = "\n".join(["| seed | what it breaks | needs, to manifest | check result | suite with the change |",
+                   "|---|---|---|---|---|"] + rows)
+
+
+def write_into_design(table_text, path=None):
+    """Replace the text between the seed-table markers of DESIGN.md."""
+    import os, re
+    path = path or os.path.join(os.path.dirname(os.path.dirname(os.path.abspath(__file__))), "DESIGN.md")
+    s = open(path).read()
+    a, b = "<!-- seed table begin -->", "<!-- seed table end -->"
+    i, j = s.index(a) + len(a), s.index(b)
+    open(path, "w").write(s[:i] + "\n" + table_text.strip("\n") + "\n" + s[j:])
+
+
+if __name__ == "__main__":
+    import sys
+    if "--write" in sys.argv:
+        write_into_design(TABLE)
+        print("DESIGN.md: %d seeds" % len(rows))
+    else:
+        print(TABLE)
